@@ -1,6 +1,7 @@
 //! iggy-verif: executes scenario files against the real iggy code and records ndjson traces
 //! for validation against the TLA+ specifications in /verif/specs.
 mod cat_lens;
+mod grp_lens;
 mod log_lens;
 mod srv;
 mod topic_lens;
@@ -10,6 +11,31 @@ use std::io::BufRead;
 
 fn arg(args: &[String], name: &str) -> Option<String> {
     args.iter().position(|a| a == name).and_then(|i| args.get(i + 1).cloned())
+}
+
+fn each_scenario<S: serde::de::DeserializeOwned>(
+    input: &str,
+    tool_errors: &mut Vec<String>,
+    mut f: impl FnMut(usize, &S) -> Result<(), String>,
+) -> usize {
+    let file = std::fs::File::open(input).expect("open scenarios");
+    let mut n = 0usize;
+    for line in std::io::BufReader::new(file).lines() {
+        let line = line.expect("read");
+        if line.trim().is_empty() {
+            continue;
+        }
+        match serde_json::from_str::<S>(&line) {
+            Ok(scn) => {
+                if let Err(e) = f(n, &scn) {
+                    tool_errors.push(format!("scenario #{n}: {e}"));
+                }
+            }
+            Err(e) => tool_errors.push(format!("bad scenario line {n}: {e}")),
+        }
+        n += 1;
+    }
+    n
 }
 
 fn main() {
@@ -32,76 +58,30 @@ fn main() {
     let work = arg(&args, "--work").expect("--work");
     std::fs::create_dir_all(&work).expect("work dir");
     let mut out = util::TraceWriter::create(&output);
-    let file = std::fs::File::open(&input).expect("open scenarios");
-    let mut n = 0usize;
     let mut tool_errors: Vec<String> = vec![];
     let t0 = std::time::Instant::now();
-    match lens.as_str() {
+    let n = match lens.as_str() {
         "log" => {
             let l = log_lens::LogLens::new(&work);
-            for line in std::io::BufReader::new(file).lines() {
-                let line = line.expect("read");
-                if line.trim().is_empty() {
-                    continue;
-                }
-                let scn: log_lens::Scenario = match serde_json::from_str(&line) {
-                    Ok(s) => s,
-                    Err(e) => {
-                        tool_errors.push(format!("bad scenario line {n}: {e}"));
-                        continue;
-                    }
-                };
-                if let Err(e) = l.run_scenario(n, &scn, &mut out) {
-                    tool_errors.push(format!("{}: {e}", scn.id));
-                }
-                n += 1;
-            }
-        }
-        "cat" => {
-            let l = cat_lens::CatLens::new(&work);
-            for line in std::io::BufReader::new(file).lines() {
-                let line = line.expect("read");
-                if line.trim().is_empty() {
-                    continue;
-                }
-                let scn: cat_lens::Scenario = match serde_json::from_str(&line) {
-                    Ok(s) => s,
-                    Err(e) => {
-                        tool_errors.push(format!("bad scenario line {n}: {e}"));
-                        continue;
-                    }
-                };
-                if let Err(e) = l.run_scenario(n, &scn, &mut out) {
-                    tool_errors.push(format!("{}: {e}", scn.id));
-                }
-                n += 1;
-            }
+            each_scenario::<log_lens::Scenario>(&input, &mut tool_errors, |n, s| l.run_scenario(n, s, &mut out))
         }
         "topic" => {
             let l = topic_lens::TopicLens::new(&work);
-            for line in std::io::BufReader::new(file).lines() {
-                let line = line.expect("read");
-                if line.trim().is_empty() {
-                    continue;
-                }
-                let scn: topic_lens::Scenario = match serde_json::from_str(&line) {
-                    Ok(s) => s,
-                    Err(e) => {
-                        tool_errors.push(format!("bad scenario line {n}: {e}"));
-                        continue;
-                    }
-                };
-                if let Err(e) = l.run_scenario(n, &scn, &mut out) {
-                    tool_errors.push(format!("{}: {e}", scn.id));
-                }
-                n += 1;
-            }
+            each_scenario::<topic_lens::Scenario>(&input, &mut tool_errors, |n, s| l.run_scenario(n, s, &mut out))
+        }
+        "cat" => {
+            let l = cat_lens::CatLens::new(&work);
+            each_scenario::<cat_lens::Scenario>(&input, &mut tool_errors, |n, s| l.run_scenario(n, s, &mut out))
+        }
+        "grp" => {
+            let l = grp_lens::GrpLens::new(&work);
+            each_scenario::<grp_lens::Scenario>(&input, &mut tool_errors, |n, s| l.run_scenario(n, s, &mut out))
         }
         other => {
             eprintln!("unknown lens {other}");
             std::process::exit(2);
         }
-    }
+    };
     out.flush();
     println!(
         "{}",
